@@ -67,6 +67,11 @@ def run(run):
                     _r3_handlers(run, f, "serial path", [])
     _r4_context_managers(run, stages)
     _r6_status_meaning(run)
+    # tasks handed to a concurrent.futures executor: a processing error comes back only if the result is consumed
+    common.check_discarded_futures(run, "C19.R3", [g_ for g_ in project.py_funcs() if "/tests/" not in g_.module.relpath],
+                                   "a tile that failed to process is not reported")
+    if not common.discarded_futures_selfcheck():
+        run.undecided("C19.R3", None, None, "discarded-futures rule self-check failed", kind="selfcheck", construct="<futures selfcheck>")
 
 
 # ---------------------------------------------------------------------------
